@@ -43,7 +43,7 @@ func main() {
 		raceDir, _ := os.MkdirTemp("", "verif-c01-race-")
 		r.Cleanup(func() { os.RemoveAll(raceDir) })
 		worker.Run(r, worker.Opts{Phase: "race", Total: r.N(200, 2500), Batch: 50, Bin: bin, Timeout: 20 * time.Minute,
-			Env: []string{"GORACE=halt_on_error=0 log_path=" + filepath.Join(raceDir, "race")}})
+			Env: []string{"GORACE=halt_on_error=0 exitcode=0 log_path=" + filepath.Join(raceDir, "race")}})
 		mon.ReportRaces(r, raceDir)
 	}
 	r.Finish(r.N(150, 2000))
